@@ -59,7 +59,7 @@ def run(chk):
                     s = T(slabels, "float", "scales", (), ("w",))
                     if slabels == ():
                         continue  # a per-tensor scale only arises for out == 1; flatten() of a 0-d tensor has one element
-                a.strides = {"stride0", "lastdim", "unaligned"}  # the caller's activations: expanded, transposed, sliced - any strides, any storage offset
+                a.strides = {"stride0", "lastdim", "unaligned", "unitstride"}  # the caller's activations: expanded, transposed, sliced - any strides, any storage offset
                 w.strides = {"stride0", "lastdim", "unaligned"}  # and so are the weights of the functional API (quantize_weight keeps the layout of its argument; a reloaded weight is a view of the file)
                 want = batch(r) + (L("out"),)
                 typed += check_results(chk, m, f, name, Interp(f, dict(zip(positional_params(f), (a, w, s))), helper_nodes).run(), want, f"rank {r + 1} activations, {sdesc} scales")
@@ -81,7 +81,7 @@ def run(chk):
         for r in ranks:
             for sdesc, slabels, _ in weight_scales():
                 a = T(batch(r) + (L("in"),), "code", "activations", {"act"})
-                a.strides = {"stride0", "lastdim", "unaligned"}
+                a.strides = {"stride0", "lastdim", "unaligned", "unitstride"}
                 w = T((L("out"), L("in")), "code", "weights", {"w"})
                 w.strides = {"stride0", "lastdim", "unaligned"}
                 s = T(slabels, "float", "scales", (), ("act", "w"))
